@@ -11,7 +11,10 @@ package harness
 
 import (
 	"bytes"
+	"encoding/hex"
+	"encoding/json"
 	"fmt"
+	"os"
 	"sort"
 	"strings"
 	"sync"
@@ -152,6 +155,10 @@ func newKVReplica(src *simapp.SimApp, snap kvSnapshot, first *abci.RequestFinali
 	if initReq == nil {
 		return nil, fmt.Errorf("no recorded InitChain for the source application")
 	}
+	return newKVReplicaFrom(initReq, snap, first)
+}
+
+func newKVReplicaFrom(initReq *abci.RequestInitChain, snap kvSnapshot, first *abci.RequestFinalizeBlock) (*simapp.SimApp, error) {
 	app := simapp.NewSimApp(log.NewNopLogger(), dbm.NewMemDB(), nil, true, simapp.EmptyAppOptions{}, baseapp.SetChainID(initReq.ChainId))
 	cp := *initReq
 	if _, err := app.BaseApp.InitChain(&cp); err != nil {
@@ -241,4 +248,102 @@ func recordedCodes(blocks []recBlock) [][]string {
 		out = append(out, codes)
 	}
 	return out
+}
+
+// ---- histories on disk: replay in another process --------------------------------------------
+
+type detFile struct {
+	Init      string                 `json:"init"`      // hex(proto(RequestInitChain))
+	Snapshot  map[string][][2]string `json:"snapshot"`  // store -> [hex key, hex value]
+	Blocks    []string               `json:"blocks"`    // hex(proto(RequestFinalizeBlock))
+	AppHashes []string               `json:"app_hashes"`
+	TxResults [][]string             `json:"tx_results"`
+}
+
+func writeDetFile(path string, initReq *abci.RequestInitChain, snap kvSnapshot, blocks []recBlock, ref replayOutcome) error {
+	f := detFile{Snapshot: map[string][][2]string{}, TxResults: ref.txResults}
+	bz, err := initReq.Marshal()
+	if err != nil {
+		return err
+	}
+	f.Init = hex.EncodeToString(bz)
+	for name, ps := range snap {
+		for _, p := range ps {
+			f.Snapshot[name] = append(f.Snapshot[name], [2]string{hex.EncodeToString(p.k), hex.EncodeToString(p.v)})
+		}
+	}
+	for _, b := range blocks {
+		bz, err := b.req.Marshal()
+		if err != nil {
+			return err
+		}
+		f.Blocks = append(f.Blocks, hex.EncodeToString(bz))
+	}
+	for _, h := range ref.appHashes {
+		f.AppHashes = append(f.AppHashes, hex.EncodeToString(h))
+	}
+	out, err := json.Marshal(f)
+	if err != nil {
+		return err
+	}
+	return os.WriteFile(path, out, 0o644)
+}
+
+// replayDetFile re-executes a history written by another process and compares with what that
+// process observed; returns a description of the first difference ("" = identical)
+func replayDetFile(path string) (string, int, error) {
+	bz, err := os.ReadFile(path)
+	if err != nil {
+		return "", 0, err
+	}
+	var f detFile
+	if err := json.Unmarshal(bz, &f); err != nil {
+		return "", 0, err
+	}
+	var initReq abci.RequestInitChain
+	ib, _ := hex.DecodeString(f.Init)
+	if err := initReq.Unmarshal(ib); err != nil {
+		return "", 0, err
+	}
+	snap := kvSnapshot{}
+	for name, ps := range f.Snapshot {
+		for _, p := range ps {
+			k, _ := hex.DecodeString(p[0])
+			v, _ := hex.DecodeString(p[1])
+			snap[name] = append(snap[name], kvPair{k, v})
+		}
+	}
+	var blocks []recBlock
+	for _, b := range f.Blocks {
+		var req abci.RequestFinalizeBlock
+		rb, _ := hex.DecodeString(b)
+		if err := req.Unmarshal(rb); err != nil {
+			return "", 0, err
+		}
+		blocks = append(blocks, recBlock{req: &req})
+	}
+	if len(blocks) == 0 {
+		return "", 0, fmt.Errorf("no blocks")
+	}
+	app, err := newKVReplicaFrom(&initReq, snap, blocks[0].req)
+	if err != nil {
+		return "", 0, err
+	}
+	out, err := replayBlocks(app, blocks)
+	if err != nil {
+		return "", 0, err
+	}
+	nTx := 0
+	for bi := range f.AppHashes {
+		for ti := range f.TxResults[bi] {
+			nTx++
+			if ti >= len(out.txResults[bi]) || out.txResults[bi][ti] != f.TxResults[bi][ti] {
+				return fmt.Sprintf("transaction-result-differs-between-processes block=%d tx=%d", bi, ti), nTx, nil
+			}
+		}
+		if hex.EncodeToString(out.appHashes[bi]) != f.AppHashes[bi] {
+			return fmt.Sprintf("application-hash-differs-between-processes block=%d", bi), nTx, nil
+		}
+	}
+	return "", nTx, nil
 }
